@@ -146,10 +146,13 @@ func crashPanic(r *core.Report, cs *crashScope, table map[string]panicExcuse) {
 					if ex, ok := table[name]; ok && ex.verify != nil {
 						if bad := ex.verify(); bad != "" {
 							r.Bad(key, p.Pos(pn.Pos()), "explicit panic whose exclusion argument no longer holds: "+bad)
-						} else {
-							r.OK(key, p.Pos(pn.Pos()), ex.reason)
+							continue
 						}
-						continue
+						if len(ex.callers) == 0 {
+							r.OK(key, p.Pos(pn.Pos()), ex.reason)
+							continue
+						}
+						// the verified reason holds for the listed callers only: fall through
 					}
 					if ex, ok := table[name]; ok {
 						// the excuse holds only for the listed callers
